@@ -1,6 +1,8 @@
-(* Proofs about Host/ActuatorsX.v: where IEEE specials get through the validations of
-   Servo.py / DCMotor.py (refuted clauses with witnesses), the guards under which they do not
-   (partial clauses), and the agreement with the finite-float models on finite inputs. *)
+(* Proofs about Host/ActuatorsX.v: the validations of Servo.py / DCMotor.py on floats with IEEE
+   specials.  NaN / infinite bounds, NaN speeds and NaN / infinite durations are rejected before any
+   write; every call with special arguments either raises ValueError leaving the object as it was, or
+   is one of the ordinary calls of Host/DCMotor.v - so the invariant, the atomicity of failing calls and
+   the "ends braked" clause extend to all arguments. *)
 From Coq Require Import ZArith QArith Qfield Lia Lqa List Bool.
 From RV Require Import Base.Wire Base.NumM Base.XFloat Gen.C19Motor Host.DCMotor Host.ActuatorsX
                        Proofs.NumMP Proofs.DCMotorP.
@@ -12,101 +14,102 @@ Open Scope Q_scope.
 Lemma servo_bounds_finite qa qb qc qd :
   servo_bounds_accepted (XFin qa) (XFin qb) (XFin qc) (XFin qd) = true <-> qa < qb /\ qc < qd.
 Proof.
-  unfold servo_bounds_accepted, xge, xle. rewrite andb_true_iff, !negb_true_iff, !Qleb_false. tauto.
+  unfold servo_bounds_accepted, xlt. cbn [forallb xfinite]. rewrite !andb_true_r, andb_true_iff, !Qltb_true. tauto.
 Qed.
 
-Lemma servo_bounds_nonfinite_refuted :
-  exists a b c d, servo_bounds_accepted a b c d = true /\
-                  ~ (xfinite a = true /\ xfinite b = true /\ xfinite c = true /\ xfinite d = true).
+Lemma servo_bounds_all_finite a b c d :
+  servo_bounds_accepted a b c d = true ->
+  xfinite a = true /\ xfinite b = true /\ xfinite c = true /\ xfinite d = true.
 Proof.
-  exists XNaN, (XFin (180 # 1)), (XFin (544 # 1)), (XFin (2400 # 1)).
-  split; [reflexivity|]. intros (H & _). discriminate H.
+  unfold servo_bounds_accepted. cbn [forallb]. rewrite !andb_true_iff. tauto.
+Qed.
+
+Lemma servo_bounds_spec a b c d :
+  servo_bounds_accepted a b c d = true <->
+  exists qa qb qc qd, a = XFin qa /\ b = XFin qb /\ c = XFin qc /\ d = XFin qd /\ qa < qb /\ qc < qd.
+Proof.
+  split.
+  - intro H. destruct (servo_bounds_all_finite _ _ _ _ H) as (Fa & Fb & Fc & Fd).
+    destruct a as [qa| | |]; try discriminate Fa. destruct b as [qb| | |]; try discriminate Fb.
+    destruct c as [qc| | |]; try discriminate Fc. destruct d as [qd| | |]; try discriminate Fd.
+    apply servo_bounds_finite in H. exists qa, qb, qc, qd. tauto.
+  - intros (qa & qb & qc & qd & -> & -> & -> & -> & H). apply servo_bounds_finite. exact H.
 Qed.
 
 (* ---- _clamp_speed ---- *)
 
-Lemma xclamp_finite q : xclamp (XFin q) = XFin (clampq q).
+Lemma xclamp_finite q : xclamp (XFin q) = Some (XFin (clampq q)).
 Proof.
-  unfold xclamp, xgt, xlt, clampq, qclamp.
+  unfold xclamp, xgt, xlt, clampq, qclamp. cbn [xnan].
   destruct (Qltb 1 q); [reflexivity|]. destruct (Qltb q (-(1))); reflexivity.
 Qed.
 
-Lemma xclamp_nan_refuted : exists x, ~ in_unit (xclamp x).
-Proof. exists XNaN. cbn. intro H. exact H. Qed.
-
-Lemma xclamp_partial x : xnan x = false -> in_unit (xclamp x).
+Lemma xclamp_result x y : xclamp x = Some y -> in_unit y.
 Proof.
-  destruct x as [q| | |]; intro H; try discriminate H.
-  - rewrite xclamp_finite. cbn. apply clampq_bounds.
-  - cbn. split; lra.
-  - cbn. split; lra.
+  destruct x as [q| | |].
+  - rewrite xclamp_finite. intro H. injection H as <-. cbn. apply clampq_bounds.
+  - discriminate.
+  - cbn. intro H. injection H as <-. cbn. split; lra.
+  - cbn. intro H. injection H as <-. cbn. split; lra.
 Qed.
 
-(* ---- run_for / ramp with a special duration ---- *)
-
-Definition m_half : motor := mkMotor (PI 2, PI 3, PI 5) (1 # 2) false Drive (1 # 2) LastOther.
-Definition m_zero : motor := mkMotor (PI 2, PI 3, PI 5) 0 false Coast 0 LastOther.
-
-Lemma run_for_nonatomic_refuted :
-  exists m d v m' e k, run_for_x m d v = (m', e, XRaised k) /\ m' <> m.
+Lemma xclamp_nan x : xclamp x = None <-> x = XNaN.
 Proof.
-  exists m_zero, XNaN, (PF (1 # 2)), m_half, [MLvl (1 # 2) (1 # 2) Drive], XValueError.
-  split; [vm_compute; reflexivity | discriminate].
+  split.
+  - destruct x as [q| | |]; [rewrite xclamp_finite| |cbn|cbn]; try discriminate. reflexivity.
+  - intros ->. reflexivity.
 Qed.
 
-Lemma ramp_nonatomic_refuted :
-  exists m t d m' e k, ramp_x m t d = (m', e, XRaised k) /\ m' <> m.
+(* ---- _check_duration ---- *)
+
+Lemma dur_accepted d : dur_rejected d = false <-> exists q, d = XFin q /\ 0 <= q.
 Proof.
-  exists m_zero, (PF (1 # 2)), XPInf,
-         (mkMotor (PI 2, PI 3, PI 5) (1 # 40) false Drive (1 # 40) LastOther), [MLvl (1 # 40) (1 # 40) Drive], XOverflowError.
-  split; [vm_compute; reflexivity | discriminate].
+  unfold dur_rejected. split.
+  - destruct d as [q| | |]; cbn; try discriminate. rewrite orb_false_r. intro H. apply Qltb_false in H.
+    exists q. split; [reflexivity | exact H].
+  - intros (q & -> & H). cbn. rewrite orb_false_r. apply Qltb_false. exact H.
 Qed.
 
-Lemma xok_not_raised (a : motor) (b : list mev) m' e k : (a, b, XOk) = (m', e, XRaised k) -> False.
-Proof. intro H. discriminate H. Qed.
-
-Lemma run_for_atomic_partial m d v m' e k :
-  d <> XNaN -> d <> XPInf -> run_for_x m d v = (m', e, XRaised k) -> m' = m /\ e = [].
+(* no duration that passes _check_duration is rejected by the sleep *)
+Lemma checked_duration_sleeps d : dur_rejected d = false -> sleep_rejects d = None.
 Proof.
-  intros Hn Hp. unfold run_for_x. destruct d as [q| | |]; try contradiction.
-  - unfold dur_rejected, xlt. destruct (Qltb q 0) eqn:E.
-    + intro H. inversion H. split; reflexivity.
-    + destruct (clamp_speed v) as [s|]; [|intro H; inversion H; split; reflexivity].
-      destruct (set_speed_q m s) as [m1 e1]. cbn [sleep_rejects]. rewrite E.
-      destruct (halt m1 Brake) as [m2 e2]. intro H. discriminate H.
-  - cbn. intro H. inversion H. split; reflexivity.
+  intro H. apply dur_accepted in H. destruct H as (q & -> & H). cbn. apply Qltb_false in H. rewrite H. reflexivity.
 Qed.
 
-Opaque ramp_run.
-
-Lemma ramp_atomic_partial m t d m' e k :
-  d <> XNaN -> d <> XPInf -> ramp_x m t d = (m', e, XRaised k) -> m' = m /\ e = [].
+Lemma checked_delay_sleeps d : dur_rejected d = false -> sleep_rejects (xdiv20 d) = None.
 Proof.
-  intros Hn Hp. unfold ramp_x. destruct d as [q| | |]; try contradiction.
-  - unfold dur_rejected, xlt. destruct (Qltb q 0) eqn:E.
-    + intro H. inversion H. split; reflexivity.
-    + destruct (clamp_speed t) as [s|]; [|intro H; inversion H; split; reflexivity].
-      cbn [xdiv20]. destruct (xgt (XFin (q / 20)) (XFin 0)) eqn:G.
-      * cbn [sleep_rejects].
-        assert (Hq : Qltb (q / 20) 0 = false).
-        { apply Qltb_false. apply Qltb_false in E. apply Qle_shift_div_l; [reflexivity | lra]. }
-        rewrite Hq. intro H. exfalso. exact (xok_not_raised _ _ _ _ _ H).
-      * intro H. exfalso. exact (xok_not_raised _ _ _ _ _ H).
-  - cbn. intro H. inversion H. split; reflexivity.
+  intro H. apply dur_accepted in H. destruct H as (q & -> & H). cbn.
+  assert (Hq : Qltb (q / 20) 0 = false).
+  { apply Qltb_false. apply Qle_shift_div_l; [reflexivity | lra]. }
+  rewrite Hq. reflexivity.
 Qed.
 
-Transparent ramp_run.
+(* ---- speed arguments ---- *)
 
-(* with a NaN duration ramp() does not even fail: delay_ms > 0 is False, no sleep at all *)
-Lemma ramp_nan_duration m t :
-  ramp_x m t XNaN =
-  match clamp_speed t with
-  | None => (m, [], XRaised XTypeError)
-  | Some target => (with_ghost (fst (ramp_run m target 0)) LastOther, snd (ramp_run m target 0), XOk)
-  end.
-Proof. unfold ramp_x. cbn. destruct (clamp_speed t); reflexivity. Qed.
+Definition cs_of (v : pynum) : Q + xexn :=
+  match clamp_speed v with Some q => inl q | None => inr XTypeError end.
 
-(* ---- agreement with the finite model ---- *)
+Lemma clamp_speed_x_lower a v : arg_lower a = Some v -> clamp_speed_x a = cs_of v.
+Proof.
+  destruct a as [w|[q| | |]]; cbn [arg_lower]; intro H; try discriminate H; injection H as <-.
+  - reflexivity.
+  - cbn [clamp_speed_x]. rewrite xclamp_finite. reflexivity.
+  - reflexivity.
+  - reflexivity.
+Qed.
+
+Lemma clamp_speed_x_nan a : arg_lower a = None -> clamp_speed_x a = inr XValueError.
+Proof. destruct a as [w|[q| | |]]; cbn [arg_lower]; intro H; try discriminate H. reflexivity. Qed.
+
+Lemma clamp_speed_x_bounds a q : clamp_speed_x a = inl q -> -(1) <= q /\ q <= 1.
+Proof.
+  destruct a as [w|x]; cbn [clamp_speed_x].
+  - unfold clamp_speed. destruct (qof w) as [r|]; [|discriminate]. intro H. injection H as <-. apply clampq_bounds.
+  - destruct (xclamp x) as [y|] eqn:E; [|discriminate]. apply xclamp_result in E.
+    destruct y as [r| | |]; try discriminate. intro H. injection H as <-. exact E.
+Qed.
+
+(* ---- the calls with special arguments are ordinary calls, or rejected outright ---- *)
 
 Definition xres_of (r : result mret) : xresult :=
   match r with
@@ -115,12 +118,28 @@ Definition xres_of (r : result mret) : xresult :=
   | Raised TypeError => XRaised XTypeError
   end.
 
-Lemma run_for_x_finite m q v :
-  run_for_x m (XFin q) v =
-  (mstate (mstep m (MRunFor (PF q) v)), mevents (mstep m (MRunFor (PF q) v)), xres_of (mresult (mstep m (MRunFor (PF q) v)))).
+Definition lift (r : motor * list mev * result mret) : motor * list mev * xresult :=
+  (mstate r, mevents r, xres_of (mresult r)).
+
+Lemma set_speed_x_lower m a v : arg_lower a = Some v -> set_speed_x m a = lift (mstep m (MSetSpeed v)).
 Proof.
-  unfold run_for_x, mstate, mevents, mresult. cbn [mstep]. unfold py_lt, dur_rejected, xlt. cbn [qof qval].
+  intro H. unfold set_speed_x. rewrite (clamp_speed_x_lower _ _ H). unfold cs_of, lift. cbn [mstep].
+  destruct (clamp_speed v); reflexivity.
+Qed.
+
+Lemma backward_x_lower m a v : arg_lower a = Some v -> backward_x m a = lift (mstep m (MBackward (Some v))).
+Proof.
+  intro H. unfold backward_x. rewrite (clamp_speed_x_lower _ _ H). unfold cs_of, lift. cbn [mstep dflt_back].
+  destruct (clamp_speed v); reflexivity.
+Qed.
+
+Lemma run_for_x_lower m q a v :
+  arg_lower a = Some v -> run_for_x m (XFin q) a = lift (mstep m (MRunFor (PF q) v)).
+Proof.
+  intro H. unfold run_for_x, lift, mstate, mevents, mresult. cbn [mstep]. unfold py_lt, dur_rejected, xlt.
+  cbn [qof qval xfinite negb]. rewrite orb_false_r.
   change (inject_Z 0) with 0. destruct (Qltb q 0) eqn:E; [reflexivity|].
+  rewrite (clamp_speed_x_lower _ _ H). unfold cs_of.
   destruct (clamp_speed v) as [s|]; [|reflexivity].
   destruct (set_speed_q m s) as [m1 e1]. cbn [sleep_rejects]. rewrite E.
   destruct (halt m1 Brake) as [m2 e2]. reflexivity.
@@ -154,12 +173,13 @@ Qed.
 
 Opaque ramp_run.
 
-Lemma ramp_x_finite m t q :
-  ramp_x m t (XFin q) =
-  (mstate (mstep m (MRamp t (PF q))), mevents (mstep m (MRamp t (PF q))), xres_of (mresult (mstep m (MRamp t (PF q))))).
+Lemma ramp_x_lower m a t q :
+  arg_lower a = Some t -> ramp_x m a (XFin q) = lift (mstep m (MRamp t (PF q))).
 Proof.
-  rewrite mstep_ramp_cases. unfold ramp_x, dur_rejected, xlt.
+  intro H. rewrite mstep_ramp_cases. unfold ramp_x, lift, dur_rejected, xlt.
+  cbn [xfinite negb]. rewrite orb_false_r.
   destruct (Qltb q 0) eqn:E; [reflexivity|].
+  rewrite (clamp_speed_x_lower _ _ H). unfold cs_of.
   destruct (clamp_speed t) as [target|]; [|reflexivity].
   rewrite ok_with_state, ok_with_events, ok_with_result.
   cbn [xdiv20 xres_of]. unfold xgt, xlt.
@@ -173,3 +193,159 @@ Qed.
 
 Transparent ramp_run.
 
+Lemma dur_lower_none d : dur_lower d = None -> dur_rejected d = true.
+Proof. destruct d; cbn; try discriminate; reflexivity. Qed.
+
+(* a NaN speed: ValueError whatever the (finite) duration - from _check_duration when it is negative,
+   from _clamp_speed otherwise; either way before any write *)
+Lemma run_for_x_nan_speed m d a : arg_lower a = None -> run_for_x m d a = raised_x m XValueError.
+Proof.
+  intro H. unfold run_for_x. destruct (dur_rejected d); [reflexivity|].
+  rewrite (clamp_speed_x_nan _ H). reflexivity.
+Qed.
+
+Lemma ramp_x_nan_speed m a d : arg_lower a = None -> ramp_x m a d = raised_x m XValueError.
+Proof.
+  intro H. unfold ramp_x. destruct (dur_rejected d); [reflexivity|].
+  rewrite (clamp_speed_x_nan _ H). reflexivity.
+Qed.
+
+(* THE reduction: every call with special arguments is the ordinary call [lower] names, or - NaN speed,
+   NaN / infinite duration - raises ValueError with nothing written, nothing slept *)
+Lemma mstep_x_lower m o :
+  mstep_x m o = match lower o with
+                | Some op => lift (mstep m op)
+                | None => raised_x m XValueError
+                end.
+Proof.
+  destruct o as [a|a|t d|d v]; cbn [mstep_x lower].
+  - destruct (arg_lower a) as [v|] eqn:E; [apply set_speed_x_lower; exact E|].
+    unfold set_speed_x. rewrite (clamp_speed_x_nan _ E). reflexivity.
+  - destruct (arg_lower a) as [v|] eqn:E; [apply backward_x_lower; exact E|].
+    unfold backward_x. rewrite (clamp_speed_x_nan _ E). reflexivity.
+  - destruct (arg_lower t) as [t'|] eqn:E.
+    + destruct d as [q| | |]; cbn [dur_lower]; [apply ramp_x_lower; exact E | | |]; reflexivity.
+    + apply ramp_x_nan_speed. exact E.
+  - destruct d as [q| | |]; cbn [dur_lower]; try reflexivity.
+    destruct (arg_lower v) as [v'|] eqn:E; [apply run_for_x_lower; exact E|].
+    apply run_for_x_nan_speed. exact E.
+Qed.
+
+(* ---- consequences: atomicity, invariant, ends braked, for ALL arguments ---- *)
+
+Lemma lift_raised r m' e k : lift r = (m', e, XRaised k) -> exists k', r = (m', e, Raised k').
+Proof.
+  destruct r as [[m1 e1] [ret|k']]; unfold lift, mstate, mevents, mresult; cbn [fst snd xres_of].
+  - intro H. discriminate H.
+  - intro H. exists k'. destruct k'; injection H as -> -> _; reflexivity.
+Qed.
+
+Lemma mstep_x_failed_atomic m o m' e k : mstep_x m o = (m', e, XRaised k) -> m' = m /\ e = [].
+Proof.
+  rewrite mstep_x_lower. destruct (lower o) as [op|].
+  - intro H. apply lift_raised in H. destruct H as (k' & H). exact (motor_failed_atomic _ _ _ _ _ H).
+  - unfold raised_x. intro H. injection H as <- <- _. split; reflexivity.
+Qed.
+
+Lemma mstep_x_state m o :
+  xstate (mstep_x m o) = match lower o with Some op => mstate (mstep m op) | None => m end.
+Proof. rewrite mstep_x_lower. destruct (lower o); reflexivity. Qed.
+
+Lemma mstep_x_inv m o : motor_inv m -> motor_inv (xstate (mstep_x m o)).
+Proof.
+  intro H. rewrite mstep_x_state. destruct (lower o) as [op|]; [apply step_inv; exact H | exact H].
+Qed.
+
+Lemma mstep_x_pins m o : pins (xstate (mstep_x m o)) = pins m.
+Proof. rewrite mstep_x_state. destruct (lower o) as [op|]; [apply step_pins | reflexivity]. Qed.
+
+Lemma step_any_inv m o : motor_inv m -> motor_inv (step_any m o).
+Proof. destruct o as [op|ox]; cbn [step_any]; [apply step_inv | apply mstep_x_inv]. Qed.
+
+Lemma step_any_pins m o : pins (step_any m o) = pins m.
+Proof. destruct o as [op|ox]; cbn [step_any]; [apply step_pins | apply mstep_x_pins]. Qed.
+
+Lemma run_any_inv ops : forall m, motor_inv m -> motor_inv (mrun_any ops m) /\ pins (mrun_any ops m) = pins m.
+Proof.
+  induction ops as [|o r IH]; intros m H; [split; [exact H | reflexivity]|].
+  cbn [mrun_any fold_left]. destruct (IH (step_any m o) (step_any_inv m o H)) as [I P].
+  split; [exact I | rewrite <- (step_any_pins m o); exact P].
+Qed.
+
+Lemma reachable_any_inv i1 i2 en m0 ops :
+  motor_ctor i1 i2 en = inl m0 ->
+  motor_inv (mrun_any ops m0) /\ pins (mrun_any ops m0) = (i1, i2, en).
+Proof.
+  intro C. destruct (ctor_accepts _ _ _ _ C) as [-> _].
+  destruct (run_any_inv ops _ (init_inv i1 i2 en)) as [I P]. split; [exact I | exact P].
+Qed.
+
+(* |speed| <= 1 after every history, in the plain words of the statement *)
+Lemma reachable_any_speed_bound i1 i2 en m0 ops :
+  motor_ctor i1 i2 en = inl m0 -> -(1) <= speed (mrun_any ops m0) /\ speed (mrun_any ops m0) <= 1.
+Proof.
+  intro C. destruct (reachable_any_inv _ _ _ _ ops C) as [I _]. exact (proj1 I).
+Qed.
+
+(* run_for with any arguments: it raises with nothing written, or ends braked having slept exactly
+   the (finite, non-negative) duration once *)
+Lemma run_for_x_outcome m d v :
+  (xres (run_for_x m d v) <> XOk /\ xstate (run_for_x m d v) = m /\ xevents (run_for_x m d v) = []) \/
+  (xres (run_for_x m d v) = XOk /\ exists q, d = XFin q /\ 0 <= q /\
+   sleeps (xevents (run_for_x m d v)) = [q] /\
+   mmode (xstate (run_for_x m d v)) = Brake /\ speed (xstate (run_for_x m d v)) = 0 /\
+   applied (xstate (run_for_x m d v)) = 0 /\ ghost (xstate (run_for_x m d v)) = LastStop).
+Proof.
+  change (run_for_x m d v) with (mstep_x m (XRunFor d v)).
+  destruct (xres (mstep_x m (XRunFor d v))) eqn:R.
+  - right. split; [reflexivity|]. revert R. rewrite mstep_x_lower. cbn [lower].
+    destruct d as [q| | |]; cbn [dur_lower]; try (unfold raised_x, xres; cbn; discriminate).
+    destruct (arg_lower v) as [v'|] eqn:E; [|unfold raised_x, xres; cbn; discriminate].
+    unfold lift, xres. cbn [snd]. intro R.
+    assert (Hq : exists qv, qof v' = Some qv /\ 0 <= q).
+    { revert R. cbn [mstep]. unfold py_lt. cbn [qof]. change (inject_Z 0) with 0.
+      destruct (Qltb q 0) eqn:Eq; [unfold mresult; cbn; discriminate|].
+      unfold clamp_speed. destruct (qof v') as [qv|]; [|unfold mresult; cbn; discriminate].
+      intros _. exists qv. split; [reflexivity | apply Qltb_false; exact Eq]. }
+    destruct Hq as (qv & Hv & H0).
+    pose proof (run_for_exact m (PF q) v' q qv eq_refl Hv H0) as X. cbn zeta in X.
+    destruct X as (_ & Sl & _ & Sp & Ap & Md & Gh & _).
+    exists q. unfold xstate, xevents. cbn [fst snd]. repeat split; assumption.
+  - left. split; [discriminate|].
+    destruct (mstep_x m (XRunFor d v)) as [[m' e] r] eqn:S. unfold xres in R. cbn [snd] in R. subst r.
+    destruct (mstep_x_failed_atomic _ _ _ _ _ S) as [-> ->]. split; reflexivity.
+Qed.
+
+(* with a NaN or infinite duration ramp() and run_for() raise ValueError at once *)
+Lemma nonfinite_duration_rejected m a d :
+  xfinite d = false ->
+  run_for_x m d a = raised_x m XValueError /\ ramp_x m a d = raised_x m XValueError.
+Proof.
+  intro H. unfold run_for_x, ramp_x, dur_rejected. rewrite H. cbn [negb]. rewrite orb_true_r. split; reflexivity.
+Qed.
+
+(* ---- agreement with the finite model (kept from before the repair) ---- *)
+
+Lemma run_for_x_finite m q v :
+  run_for_x m (XFin q) (XNum v) =
+  (mstate (mstep m (MRunFor (PF q) v)), mevents (mstep m (MRunFor (PF q) v)), xres_of (mresult (mstep m (MRunFor (PF q) v)))).
+Proof. exact (run_for_x_lower m q (XNum v) v eq_refl). Qed.
+
+Lemma ramp_x_finite m t q :
+  ramp_x m (XNum t) (XFin q) =
+  (mstate (mstep m (MRamp t (PF q))), mevents (mstep m (MRamp t (PF q))), xres_of (mresult (mstep m (MRamp t (PF q))))).
+Proof. exact (ramp_x_lower m (XNum t) t q eq_refl). Qed.
+
+(* witnesses of the repaired findings, now rejected *)
+Definition m_half : motor := mkMotor (PI 2, PI 3, PI 5) (1 # 2) false Drive (1 # 2) LastOther.
+Definition m_zero : motor := mkMotor (PI 2, PI 3, PI 5) 0 false Coast 0 LastOther.
+
+Lemma run_for_x_failed_atomic m d v m' e k : run_for_x m d v = (m', e, XRaised k) -> m' = m /\ e = [].
+Proof. exact (mstep_x_failed_atomic m (XRunFor d v) m' e k). Qed.
+
+Lemma ramp_x_failed_atomic m t d m' e k : ramp_x m t d = (m', e, XRaised k) -> m' = m /\ e = [].
+Proof. exact (mstep_x_failed_atomic m (XRamp t d) m' e k). Qed.
+
+Lemma checked_duration_never_fails_in_sleep d :
+  dur_rejected d = false -> sleep_rejects d = None /\ sleep_rejects (xdiv20 d) = None.
+Proof. intro H. split; [apply checked_duration_sleeps | apply checked_delay_sleeps]; exact H. Qed.
